@@ -132,13 +132,59 @@ func c15Cases() []chainCase {
 				return "", ""
 			}})
 	}
+	// a configured fee-multiplier list (governance parameter auth/FeeMultipliers) with three entries: the required
+	// fee of a message type is its base fee times ITS entry, wherever the entry stands in the list
+	fmVal := `{"fee_multiplier":[{"key":"stake_validator","multiplier":"3"},{"key":"send","multiplier":"5"},{"key":"app_stake","multiplier":"2"}],"default":"1"}`
+	fmPre := []BlockSpec{blk(tx("gov_param", "G", "from", "G", "key", "auth/FeeMultipliers", "value", fmVal))}
+	for _, x := range []struct {
+		name   string
+		t      TxSpec
+		signer string
+		mult   int64
+	}{
+		{"send-second-entry", tx("send", "A1", "to", "A2", "amount", "7"), "A1", 5},
+		{"app-stake-third-entry", tx("app_stake", "P2", "value", "1000000"), "P2", 2},
+		{"node-stake-first-entry", tx("node_stake", "N3", "node", "N3", "value", "1000000", "chains", "0001", "output", "N3"), "N3", 3},
+		{"gov-param-default", tx("gov_param", "G", "from", "G", "key", "pos/MaxValidators", "value", `"1"`), "G", 1},
+	} {
+		base := requiredFee(x.t)
+		for _, k := range []int64{1, x.mult - 1, x.mult, x.mult + 1} {
+			if k < 1 || (k == x.mult-1 && k == 1 && x.mult != 2) {
+				continue
+			}
+			x, k := x, k
+			t := x.t
+			t.Fee = fmt.Sprint(base * k)
+			if k == x.mult && x.mult > 1 {
+				t.Fee = fmt.Sprint(base*k - 1) // one below the configured requirement
+			}
+			mustPass := base*k >= base*x.mult && !(k == x.mult && x.mult > 1)
+			cases = append(cases, chainCase{Name: fmt.Sprintf("fee-multipliers/%s/declared-%s", x.name, t.Fee), Class: "fee-multiplier", Env: env, Want: []string{"balances"},
+				Ref: append(append([]BlockSpec{}, fmPre...), BlockSpec{}), Subject: append(append([]BlockSpec{}, fmPre...), blk(t)),
+				Oracle: func(r, s JobResult) (string, string) {
+					if r.Blocks[0].Txs[0].Code != 0 {
+						return "", "" // the parameter change itself was not accepted: nothing configured
+					}
+					tr := lastTx(s)
+					d := balanceDelta(r, s)
+					desc := fmt.Sprintf("with auth/FeeMultipliers = %s: %s declaring fee %s (base fee %d x configured multiplier %d = %d required)", fmVal, x.t.String(), t.Fee, base, x.mult, base*x.mult)
+					if !mustPass && (len(d) != 0 || tr.Code == 0) {
+						return "fee-below-configured-requirement-accepted", fmt.Sprintf("%s: result code %d, balance changes %s", desc, tr.Code, deltaStr(d))
+					}
+					if mustPass && tr.Codespace == "auth" && tr.Code == 4 {
+						return "configured-fee-rejected", fmt.Sprintf("%s: rejected with auth/4", desc)
+					}
+					return "", ""
+				}})
+		}
+	}
 	return cases
 }
 
 func init() {
 	register(&Check{ID: "C15", QuickBud: 110 * time.Second, ThorBud: 20 * time.Minute,
 		Run: func(c *ev.Ctx) {
-			c.Rule = "8 transactions (succeeding and failing in their handler, rich / exactly-fee / staked payers) x 9 declared fees (required, required-1, required+1, zero, double, extra denomination the payer lacks, unsorted, duplicate and negative coin lists) x {effect within the block, effect after the following block}, plus multi-signature payers declaring less than the required fee; each delivered in a block of the real application next to a reference replica without it: if authentication passes the fee collector gains exactly the declared fee and a failing message changes exactly {payer -fee, fee collector +fee}, still true after the next block distributes the fees (never charged twice, books balance to zero); otherwise nothing changes (identical app hash)"
+			c.Rule = "8 transactions (succeeding and failing in their handler, rich / exactly-fee / staked payers) x 9 declared fees (required, required-1, required+1, zero, double, extra denomination the payer lacks, unsorted, duplicate and negative coin lists) x {effect within the block, effect after the following block}, plus multi-signature payers declaring less than the required fee, plus a governance-configured fee-multiplier list of three entries with fees below, at and above each message type's own multiple; each delivered in a block of the real application next to a reference replica without it: if authentication passes the fee collector gains exactly the declared fee and a failing message changes exactly {payer -fee, fee collector +fee}, still true after the next block distributes the fees (never charged twice, books balance to zero); otherwise nothing changes (identical app hash)"
 			runChainCases(c, "fees", c15Cases())
 			getPool().Close()
 		},
